@@ -19,7 +19,7 @@ def hx(b):
 
 
 def gen_entry(rng, idx):
-    ty = rng.choice([0, 0, 0, 1, 2, 3, 4])
+    ty = rng.choice([0, 0, 0, 1, 2, 3, 4, 5, 5])    # every raft.LogType incl. LogConfiguration (5)
     if ty == 0:
         mid = rng.choice([0, 0, idx, 77])
         f = [mid, rng.choice([0, 1]), rng.choice([0, 5, 2**63]), 0, rng.randrange(0, 9), hx(rng.choice(TEXTS)), rng.choice([0, 1432323893000000000, -5]),
